@@ -4,6 +4,7 @@ package main
 // numeric map keys for every numeric kind, the byte formats, the time layouts, the duration formats.
 
 import (
+	"fmt"
 	"math"
 	"math/rand/v2"
 	"reflect"
@@ -53,8 +54,13 @@ func numCases[T number](w *run.W, a *numArgs, conv func(uint64) (T, bool)) {
 		xc := x
 		box := numBox[T]{Plain: x, Quoted: x, Ptr: &xc, PtrQ: &xc, Key: map[T]T{x: y, y: x}, KeyS: map[T]string{x: "v"}, Elems: []T{x, y}, Arr: [2]T{y, x},
 			ByName: map[string]T{"k": x, "": y}}
+		in := rtInfo{label: "numeric " + a.Type, family: "alt-" + a.Type, eq: true}
+		if !isFloat {
+			plain := fmt.Sprint(x) // decimal by strconv
+			in.repr = func(os *optSet, b1 []byte) { reprInts(w, os, in.family, b1, plain) }
+		}
 		for _, oi := range numOptSets {
-			roundTrip(w, reflect.ValueOf(box), optSets[oi], rtInfo{label: "numeric " + a.Type, typeSig: "alt-" + a.Type, eq: true})
+			roundTrip(w, reflect.ValueOf(box), optSets[oi], in)
 		}
 		if isFloat {
 			w.Count("alt_float_values", 1)
@@ -160,11 +166,13 @@ func checkDurs(w *run.W, a *durArgs) {
 		dc := d
 		box := durBox{d, d, d, d, d, d, d, d, d, &dc, &dc}
 		for _, oi := range []int{0, 2, 3, 1} {
-			roundTrip(w, reflect.ValueOf(box), optSets[oi], rtInfo{label: "duration formats", typeSig: "alt-duration", eq: true, format: true})
+			roundTrip(w, reflect.ValueOf(box), optSets[oi], rtInfo{label: "duration formats", family: "alt-duration", eq: true, format: true,
+				repr: func(os *optSet, b1 []byte) { reprDurations(w, os, "alt-duration", b1, reflect.ValueOf(box)) }})
 		}
 		nb := durNanoBox{d, d, &dc, []time.Duration{d, e}, map[time.Duration]time.Duration{d: e, e: d}, map[string]time.Duration{"k": d}}
 		for _, oi := range []int{3, 9} {
-			roundTrip(w, reflect.ValueOf(nb), optSets[oi], rtInfo{label: "duration as nanoseconds", typeSig: "alt-duration-nano", eq: true})
+			roundTrip(w, reflect.ValueOf(nb), optSets[oi], rtInfo{label: "duration as nanoseconds", family: "alt-duration-nano", eq: true,
+				repr: func(os *optSet, b1 []byte) { reprDurations(w, os, "alt-duration-nano", b1, reflect.ValueOf(nb)) }})
 		}
 		w.Count("alt_duration_values", 1)
 	}
@@ -189,19 +197,25 @@ type timeBox struct {
 	ByName    map[string]time.Time
 }
 
-// layouts that drop part of the value: only the byte fixed point is demanded
+// Layouts that carry only part of the value.  The decoded value must equal what the layout
+// carries of the original (projectTime: the toolchain's time.Parse of time.Format), and the byte
+// fixed point is demanded for every value the layout can render consistently.
 type timeLossyBox struct {
-	RFC3339  time.Time `json:",format:RFC3339"`
-	DateTime time.Time `json:",format:DateTime"`
-	DateOnly time.Time `json:",format:DateOnly"`
-	TimeOnly time.Time `json:",format:TimeOnly"`
-	RFC1123Z time.Time `json:",format:RFC1123Z"`
-	RFC822Z  time.Time `json:",format:RFC822Z"`
-	ANSIC    time.Time `json:",format:ANSIC"`
-	RubyDate time.Time `json:",format:RubyDate"`
-	Stamp    time.Time `json:",format:StampMicro"`
-	Kitchen  time.Time `json:",format:Kitchen"`
-	Custom   time.Time `json:",format:'Jan _2 2006 15:04:05.000 -0700'"`
+	RFC3339  time.Time  `json:",format:RFC3339"`
+	DateTime time.Time  `json:",format:DateTime"`
+	DateOnly time.Time  `json:",format:DateOnly"`
+	TimeOnly time.Time  `json:",format:TimeOnly"`
+	RFC1123Z time.Time  `json:",format:RFC1123Z"`
+	RFC822Z  time.Time  `json:",format:RFC822Z"`
+	ANSIC    time.Time  `json:",format:ANSIC"`
+	RubyDate time.Time  `json:",format:RubyDate"`
+	Stamp    time.Time  `json:",format:Stamp"`
+	StampMs  time.Time  `json:",format:StampMilli"`
+	StampUs  time.Time  `json:",format:StampMicro"`
+	StampNs  *time.Time `json:",format:StampNano"`
+	Kitchen  time.Time  `json:",format:Kitchen"`
+	Custom   time.Time  `json:",format:'Jan _2 2006 15:04:05.000 -0700'"`
+	Custom2  time.Time  `json:",format:'06-1-2 3:4:5pm Z0700'"`
 }
 
 // layouts with a zone abbreviation are only round-trippable for UTC
@@ -216,6 +230,57 @@ type timeArgs struct {
 	Sec  []int64 `json:"sec"`
 	Nsec []int64 `json:"nsec"`
 	Off  []int   `json:"off"` // zone offset in minutes; 100000 = UTC location
+}
+
+// intoLayoutDomains replaces, field by field, a time that the field's layout cannot render
+// consistently (layoutFixedPoint is false: RFC850 writes the weekday of the full year but only
+// the year modulo 100) by what the layout carries of it, which it can.  It reports whether any
+// field was replaced.
+func intoLayoutDomains(w *run.W, box reflect.Value) (replaced bool) {
+	for i := 0; i < box.NumField(); i++ {
+		ff := fieldFormat(box.Type().Field(i).Tag)
+		f := box.Field(i)
+		if f.Kind() == reflect.Pointer {
+			f = f.Elem()
+		}
+		if ff.layout == "" || f.Type() != tTime {
+			continue
+		}
+		t := f.Interface().(time.Time)
+		for k := 0; !layoutFixedPoint(ff.layout, t); k++ {
+			p, err := projectTime(ff.layout, t)
+			if err != nil || k == 3 {
+				w.Broken("layout %q: no consistent rendering reachable from %v (%v)", ff.layout, t, err)
+				return
+			}
+			t, replaced = p, true
+		}
+		f.Set(reflect.ValueOf(t))
+	}
+	return replaced
+}
+
+func lossyTimes(w *run.W, raw reflect.Value, label string) {
+	in := rtInfo{label: label, family: "alt-time-layout", eq: true, format: true}
+	box := reflect.New(raw.Type()).Elem()
+	box.Set(raw)
+	if p := box.FieldByName("StampNs"); p.IsValid() { // do not alias the pointee of raw
+		c := reflect.New(tTime)
+		c.Elem().Set(raw.FieldByName("StampNs").Elem())
+		p.Set(c)
+	}
+	if intoLayoutDomains(w, box) {
+		w.Count("alt_time_moved_into_layout_domain", 1)
+		// the original value: acceptance and equality with what the layout carries, no fixed point
+		out := in
+		out.noFixedPoint = true
+		out.repr = func(os *optSet, b1 []byte) { reprTimes(w, os, in.family, b1, raw) }
+		roundTrip(w, raw, optSets[0], out)
+	}
+	in.repr = func(os *optSet, b1 []byte) { reprTimes(w, os, in.family, b1, box) }
+	for _, oi := range []int{0, 3} {
+		roundTrip(w, box, optSets[oi], in)
+	}
 }
 
 func checkTimes(w *run.W, a *timeArgs) {
@@ -233,13 +298,13 @@ func checkTimes(w *run.W, a *timeArgs) {
 		tc := t
 		box := timeBox{t, t, t, t, t, t, t, t, t, &tc, []time.Time{t}, map[string]time.Time{"k": t}}
 		for _, oi := range []int{0, 2, 3, 14} {
-			roundTrip(w, reflect.ValueOf(box), optSets[oi], rtInfo{label: "time formats", typeSig: "alt-time", eq: true, format: true})
+			roundTrip(w, reflect.ValueOf(box), optSets[oi], rtInfo{label: "time formats", family: "alt-time", eq: true, format: true,
+				repr: func(os *optSet, b1 []byte) { reprTimes(w, os, "alt-time", b1, reflect.ValueOf(box)) }})
 		}
-		lb := timeLossyBox{t, t, t, t, t, t, t, t, t, t, t}
-		roundTrip(w, reflect.ValueOf(lb), optSets[0], rtInfo{label: "lossy time layouts", typeSig: "alt-time-lossy", eq: false, format: true})
+		tc2 := t
+		lossyTimes(w, reflect.ValueOf(timeLossyBox{t, t, t, t, t, t, t, t, t, t, t, &tc2, t, t, t}), "time layouts carrying part of the value")
 		if a.Off[i] == 100000 {
-			ub := timeUTCBox{t, t, t, t}
-			roundTrip(w, reflect.ValueOf(ub), optSets[0], rtInfo{label: "time layouts with zone abbreviation (UTC)", typeSig: "alt-time-lossy", eq: false, format: true})
+			lossyTimes(w, reflect.ValueOf(timeUTCBox{t, t, t, t}), "time layouts with zone abbreviation (UTC)")
 		}
 		w.Count("alt_time_values", 1)
 	}
@@ -317,7 +382,8 @@ func checkBytes(w *run.W, a *bytesArgs) {
 		box.Named = map[string][]byte{"a": mk(n), "": mk(-1)}
 	}
 	for _, oi := range []int{0, 2, 3, 4, 7, 8, 13} {
-		roundTrip(w, reflect.ValueOf(box), optSets[oi], rtInfo{label: "byte formats", typeSig: "alt-bytes", eq: true, format: true})
+		roundTrip(w, reflect.ValueOf(box), optSets[oi], rtInfo{label: "byte formats", family: "alt-bytes", eq: true, format: true,
+			repr: func(os *optSet, b1 []byte) { reprBytes(w, os, "alt-bytes", b1, reflect.ValueOf(box)) }})
 	}
 	w.Count("alt_bytes_values", 1)
 	w.Shape("alt|bytes")
@@ -346,7 +412,7 @@ func genAlt(w *run.W, mine func() bool) {
 	for d := -span; d <= span; d++ {
 		ints = append(ints, uint64(d)) // around 0 and around 2^64
 	}
-	for i := 0; i < w.Pick(300, 20000); i++ {
+	for i := 0; i < w.Pick(1000, 20000); i++ {
 		ints = append(ints, r.Uint64(), r.Uint64()>>uint(r.IntN(64)), uint64(-int64(r.Uint64()>>uint(r.IntN(64)))))
 	}
 	for _, ty := range []string{"int8", "int16", "int32", "int64", "int", "uint8", "uint16", "uint32", "uint64", "uint", "uintptr"} {
@@ -374,7 +440,7 @@ func genAlt(w *run.W, mine func() bool) {
 		}
 	}
 	var f32 []uint64
-	for _, f := range []float32{1e-7, 1e-6, 1e-5, 1e20, 1e21, 1e22, 1e7, 1e8, 1 << 24, 1, 0.1, math.MaxFloat32, math.SmallestNonzeroFloat32, 0} {
+	for _, f := range []float32{1e-7, 1e-6, 1e-5, 1e20, 1e21, 1e22, 1e7, 1e8, 1 << 24, 1, 0.1, math.MaxFloat32, math.SmallestNonzeroFloat32, 0, 7.038531e-26} {
 		b := math.Float32bits(f)
 		for d := -int32(w.Pick(20, 300)); d <= int32(w.Pick(20, 300)); d++ {
 			x := b + uint32(d)
@@ -396,7 +462,7 @@ func genAlt(w *run.W, mine func() bool) {
 			durs = append(durs, base+d, -(base + d))
 		}
 	}
-	for i := 0; i < w.Pick(3000, 60000); i++ {
+	for i := 0; i < w.Pick(6000, 60000); i++ {
 		durs = append(durs, int64(r.Uint64()), r.Int64N(1e12)-5e11, r.Int64N(1000)*[]int64{1, 10, 100, 1e3, 1e4, 1e6, 1e7, 1e9, 1e10, 60e9, 3600e9}[r.IntN(11)], int64(r.Uint64()>>uint(r.IntN(64))))
 	}
 	for i := 0; i < len(durs); i += 200 {
@@ -418,7 +484,7 @@ func genAlt(w *run.W, mine func() bool) {
 			}
 		}
 	}
-	for i := 0; i < w.Pick(3000, 30000); i++ {
+	for i := 0; i < w.Pick(8000, 40000); i++ {
 		sec := r.Int64N(253402300799+62167219200) - 62167219200
 		ns := r.Int64N(1e9)
 		if i%3 == 0 {
@@ -437,7 +503,7 @@ func genAlt(w *run.W, mine func() bool) {
 		}
 	}
 	// bytes
-	for rep := 0; rep < w.Pick(3, 30); rep++ {
+	for rep := 0; rep < w.Pick(10, 60); rep++ {
 		for n := -1; n <= 70; n++ {
 			seed := r.Uint64()
 			if mine() {
